@@ -15,7 +15,7 @@ PENDING = "check not built yet in this revision of /verif (work in progress); wi
 add("C01", "mb2-check+sandbox+fuzz", "property-based testing over generated adversarial regions in a guard-page sandbox; extent oracle; coverage-guided fuzzing (libFuzzer + ASan) with the same oracle inside the target",
     "Generated adversarial boot informations (all kinds, tampered sizes/counts/strides/indices) are loaded and fully exercised in a forked child with the region flush against PROT_NONE pages; any signal, step-bound overrun or returned reference outside its tag is a violation. Also: stand-alone tags ending at the guard page, tag lists of up to 60 000 (200 000) tags on a 1 MiB stack, sequences of regions at one address in one process, polling after a caught panic, secondary iterator methods, Debug of advanced iterators; ELF section names resolved in harness-owned memory, relations (==, cmp, hash) with a second live object; libFuzzer/ASan campaigns (fuzz_mbi, fuzz_tag) with out-of-tag poisoning, short in the quick tier and long in the thorough tier. Exploration: finds crashes and escaping references, cannot prove their absence.",
     "guard pages are byte-exact only on the flush side; reads removed by the optimiser are invisible; no known finding is open (the exclusion machinery for D16 is inert)", "DESIGN.md §4 C01")
-add("C02", "mb2-check+sandbox", "bounded-exhaustive + property-based testing of load() against the statement's decision table",
+add("C02", "mb2-check+sandbox+transcript", "bounded-exhaustive + property-based testing of load() against the statement's decision table",
     "Other structures handed to load by mistake, the decision in all four build configurations, loads at special addresses, and every total-size word 0..=72 and every multiple of 8 with its neighbours up to 1024/4096, 8 end-tag variants, plus generated sizes up to 1 MiB on a mapping that provides exactly the declared bytes, sizes up to 2^32-1 on a lazily mapped 4 GiB region, interiors with end-tag look-alikes, and regions whose interior is a (well-formed or broken) tag chain; oracle is the precedence table of the statement.",
     "memory behind the pointer is valid for max(8, r8(total size)) bytes, as the statement grants", "DESIGN.md §4 C02")
 add("C03", "mb2-check", "bounded-exhaustive + property-based differential against the reference walk; model-based iterator histories",
@@ -74,5 +74,5 @@ add("C20", "mb2-check", "exhaustive 2^32 enumeration (thorough) / stratified sam
 add("C08", "mb2-check+transcript", "differential testing of four separately compiled configurations over generated inputs",
     "Generated well-formed and malformed boot informations and headers are sent to four transcript servers built from the same driver source as {dev, release} x {default features, no default features}; the address-free transcripts of load/walk/decode (incl. nth/count, polling after a caught panic), of 16-byte basic headers with lengths up to 2^32-1, and of find_header must be byte-identical.",
     "four configurations on one 64-bit host and toolchain; Debug renderings and derived sums are outside 'decoding stored data' and not compared", "DESIGN.md §4 C08")
-ENGINES.append({"name": "transcript", "path": "transcript", "serves_properties": ["C08"],
+ENGINES.append({"name": "transcript", "path": "transcript", "serves_properties": ["C02","C07","C08"],
      "kind_free_text": "stand-alone transcript server built in four configurations; serves each request in a forked child on guarded memory"})
